@@ -435,6 +435,17 @@ func (c *FnCtx) valuesEqual(a, b Val, t types.Type) string {
 	return eq(c.termOf(a), c.termOf(b))
 }
 
+// sq: in real mode the square of a term is an uninterpreted function (non-negative), so that
+// sums of squares are matched syntactically instead of by non-linear arithmetic.
+func (c *FnCtx) sq(a string) string {
+	c.smt.declareFun("real_sq", []string{"Real"}, "Real")
+	if !c.sqAxiom {
+		c.sqAxiom = true
+		c.smt.assume("(forall ((x Real)) (! (>= (real_sq x) 0.0) :pattern ((real_sq x))))", "a square is non-negative")
+	}
+	return app("real_sq", a)
+}
+
 func (c *FnCtx) floatBin(op token.Token, a, b string) string {
 	if c.floatsIEEE {
 		switch op {
@@ -466,6 +477,9 @@ func (c *FnCtx) floatBin(op token.Token, a, b string) string {
 	case token.SUB:
 		return app("-", a, b)
 	case token.MUL:
+		if a == b && !isAtomNumber(a) {
+			return c.sq(a)
+		}
 		return app("*", a, b)
 	case token.QUO:
 		return app("/", a, b)
@@ -894,4 +908,16 @@ func (fr *Frame) next(x *ssa.Next, st *State, reach string) Val {
 func isUnsafePointer(t types.Type) bool {
 	b, ok := t.Underlying().(*types.Basic)
 	return ok && b.Kind() == types.UnsafePointer
+}
+
+func isAtomNumber(t string) bool {
+	if t == "" {
+		return false
+	}
+	for _, ch := range t {
+		if !(ch >= '0' && ch <= '9' || ch == '.') {
+			return false
+		}
+	}
+	return true
 }
